@@ -5,6 +5,7 @@
 #define _GNU_SOURCE
 #include "hcommon.h"
 #include "radsecproxy.c"
+#include <stdarg.h>
 
 /* ------------------------------------------------------------------ virtual environment */
 static long verif_now = 1000000;
@@ -130,10 +131,87 @@ static void op_addttl(char **tok, int n) {
     radmsg_free(msg);
 }
 
+/* ------------------------------------------------------------------ configuration + regex oracle */
+static char verif_conf_path[512];
+static FILE *verif_conf_file = NULL;
+static int verif_conf_loaded = 0;
+
+#define MAXRX 256
+static struct { const regex_t *re; char id[64]; } rxtab[MAXRX];
+static int nrx = 0;
+static void rx_register(const regex_t *re, const char *fmt, ...) {
+    va_list ap;
+    if (!re || nrx >= MAXRX) return;
+    rxtab[nrx].re = re;
+    va_start(ap, fmt);
+    vsnprintf(rxtab[nrx].id, sizeof(rxtab[nrx].id), fmt, ap);
+    va_end(ap);
+    nrx++;
+}
+int __real_regexec(const regex_t *preg, const char *string, size_t nmatch, regmatch_t pmatch[], int eflags);
+int __wrap_regexec(const regex_t *preg, const char *string, size_t nmatch, regmatch_t pmatch[], int eflags) {
+    int r = __real_regexec(preg, string, nmatch, pmatch, eflags), i;
+    for (i = 0; i < nrx; i++)
+        if (rxtab[i].re == preg) {
+            size_t k;
+            printf("oracle %s ", rxtab[i].id);
+            h_puthex(stdout, (const uint8_t *)string, strlen(string));
+            if (r) printf(" nomatch");
+            else if (!nmatch) printf(" match");
+            else
+                for (k = 0; k < nmatch; k++)
+                    printf("%s%d:%d", k ? "," : " ", (int)pmatch[k].rm_so, (int)pmatch[k].rm_eo);
+            printf("\n");
+            break;
+        }
+    return r;
+}
+
+static char *rewrite_names[64];
+static int nrewrite_names = 0;
+
+static void register_rewrite_regexes(void) {
+    int i, k;
+    for (i = 0; i < nrewrite_names; i++) {
+        struct rewrite *rw = getrewrite(rewrite_names[i], NULL);
+        struct list_node *n;
+        if (!rw) continue;
+        for (k = 0, n = list_first(rw->modattrs); n; n = list_next(n), k++)
+            rx_register(((struct modattr *)n->data)->regex, "rw:%s:mod:%d", rewrite_names[i], k);
+        for (k = 0, n = list_first(rw->modvattrs); n; n = list_next(n), k++)
+            rx_register(((struct modattr *)n->data)->regex, "rw:%s:modv:%d", rewrite_names[i], k);
+    }
+}
+
+static void conf_line(char *rest) {
+    if (!verif_conf_file) {
+        snprintf(verif_conf_path, sizeof(verif_conf_path), "%s/conf.%d", getenv("VERIF_RUNDIR") ? getenv("VERIF_RUNDIR") : "/tmp", (int)getpid());
+        verif_conf_file = fopen(verif_conf_path, "w");
+    }
+    fprintf(verif_conf_file, "%s\n", rest);
+}
+
+static void post_config(void);
+static void load_conf(void) {
+    int i;
+    if (verif_conf_loaded) return;
+    verif_conf_loaded = 1;
+    if (!verif_conf_file) return;
+    fclose(verif_conf_file);
+    for (i = 0; i < RAD_PROTOCOUNT; i++)
+        protodefs[i] = protoinits[i](i);
+    fflush(stdout);
+    getmainconfig(verif_conf_path);
+    unlink(verif_conf_path);
+    register_rewrite_regexes();
+    post_config();
+}
+
 #include "hops.inc"
 
 static void h_case_begin(void) {
     opidx = 0;
+    verif_conf_file = NULL; verif_conf_loaded = 0; nrx = 0; nrewrite_names = 0;
     debug_init("verif");
     debug_set_level(1);
 }
@@ -141,7 +219,18 @@ static void h_case_begin(void) {
 static void h_line(char *kind, char *rest) {
     static char *tok[8192];
     int n;
+    if (!strcmp(kind, "conf")) { conf_line(rest); return; }
+    if (!strcmp(kind, "cfg")) {
+        if (!strncmp(rest, "rewrite ", 8) && nrewrite_names < 64) {
+            char *nm = strdup(rest + 8), *sp = strchr(nm, ' ');
+            if (sp) *sp = 0;
+            rewrite_names[nrewrite_names++] = nm;
+        }
+        h_more_lines(kind, rest);
+        return;
+    }
     if (!strcmp(kind, "op")) {
+        load_conf();
         n = h_split(rest, tok, 8192);
         if (n < 1) return;
         if (!strcmp(tok[0], "decttl")) op_decttl(tok + 1, n - 1);
